@@ -137,7 +137,7 @@ impl<'t> FSEDecoder<'t> {
             r is Err <==> old(self).table.accuracy_log == 0,
             r is Err ==> *final(bits) == *old(bits),
             r is Ok ==> final(self).state_ok() && final(bits).remaining() == old(bits).remaining() - old(self).table.accuracy_log,
-            old(bits).extra() <= final(bits).extra() <= old(bits).extra() + 64,
+            old(bits).extra() <= final(bits).extra() <= old(bits).extra() + 64, final(bits).src_len() == old(bits).src_len(),
 {
         proof { lemma_shift_facts(); }
         if self.table.accuracy_log == 0 {
@@ -154,7 +154,7 @@ impl<'t> FSEDecoder<'t> {
         ensures
             final(self).table == old(self).table, final(self).state_ok(), final(bits).wf(),
             final(bits).remaining() == old(bits).remaining() - old(self).state.num_bits,
-            old(bits).extra() <= final(bits).extra() <= old(bits).extra() + 64,
+            old(bits).extra() <= final(bits).extra() <= old(bits).extra() + 64, final(bits).src_len() == old(bits).src_len(),
 {
         proof { lemma_shift_facts(); }
         let num_bits = self.state.num_bits;
